@@ -21,22 +21,30 @@ inductive Val where
   | int (i : Int)
   | bool (b : Bool)
   | str (s : Nat)
+  | flt (twice : Int)       -- `FactValue::Float(twice / 2)`: halves are exact in f64, so no rounding is modelled
 deriving Repr, DecidableEq
+
+/-- `FactValue::as_float`, scaled by two (integers and exact half-integer floats) -/
+def Val.twice? : Val → Option Int
+  | .int i => some (2 * i)
+  | .flt t => some t
+  | _ => none
 
 inductive Cmp where
   | eq | ne | lt | le | gt | ge
 deriving Repr, DecidableEq
 
-/-- `FactValue::compare` on the typed core: `==`/`!=` structural; ordering through `as_float` (integers only —
-booleans and non-numeric strings have no float value: `<`,`>` are false, `<=`,`>=` fall back to `==`) -/
+/-- `FactValue::compare` on the typed core: `==`/`!=` structural (so `Integer(1) ≠ Float(1.0)`); ordering
+through `as_float` (integers and floats compare numerically across the two representations — booleans and
+non-numeric strings have no float value: `<`,`>` are false, `<=`,`>=` fall back to `==`) -/
 def Val.compare (a : Val) (op : Cmp) (b : Val) : Bool :=
   match op with
   | .eq => a == b
   | .ne => a != b
-  | .lt => (match a, b with | .int x, .int y => decide (x < y) | _, _ => false)
-  | .gt => (match a, b with | .int x, .int y => decide (x > y) | _, _ => false)
-  | .le => (match a, b with | .int x, .int y => decide (x ≤ y) | _, _ => a == b)
-  | .ge => (match a, b with | .int x, .int y => decide (x ≥ y) | _, _ => a == b)
+  | .lt => (match a.twice?, b.twice? with | some x, some y => decide (x < y) | _, _ => false)
+  | .gt => (match a.twice?, b.twice? with | some x, some y => decide (x > y) | _, _ => false)
+  | .le => (match a.twice?, b.twice? with | some x, some y => decide (x ≤ y) | _, _ => a == b)
+  | .ge => (match a.twice?, b.twice? with | some x, some y => decide (x ≥ y) | _, _ => a == b)
 
 abbrev Data := List (Nat × Val)       -- `TypedFacts` of one fact: field ↦ value (first binding wins)
 
